@@ -1,7 +1,9 @@
 //! C17 — progress only moves forward to 100 % and cancellation is honoured.
 //!
 //! Case line
-//!   run API FORMAT W H COLOR DITH QUALITY MIPS PAR THREADS ORDER REPORTER CANCEL SEED
+//!   run API FORMAT W H COLOR DITH QUALITY MIPS PAR THREADS ORDER REPORTER CANCEL SEED nf=N
+//!     nf=N      number of fragments `SplitView::new` cuts the level-0 surface into (checked against
+//!               the implementation and against the model; identifies the code path in the case line)
 //!     API       E = `Encoder::write_surface_with_progress`, F = free function `dds::encode`
 //!     MIPS      0/1: declare a full mip chain and let the encoder generate it (E only)
 //!     PAR       0/1: `EncodeOptions.parallel`
@@ -16,16 +18,19 @@
 //!
 //! Result line (canonical, compared with the Lean model with 1e-6 slack on progress values):
 //!   -     : `<res> n=<reports> seq=<f32 bits,...>`            when the sequence is schedule independent
-//!           `<res> n=<reports> dif=<sorted successive differences as f32 bits>` otherwise
+//!           `<res> n=<reports> last=<v> dif=<sorted successive differences of 0,r0,r1,.. as f32 bits>`
+//!           otherwise (the multiset of increments does not depend on the completion order: the
+//!           multi-fragment levels are a prefix of the levels and each ends with its range's end)
 //!   pre   : `<res> n=<reports> written=<bytes> retry=<res> n2=<reports>`
 //!   kN    : `<res> n=<reports>` (sequential) / `<res>` (parallel: later reports are schedule dependent)
 //!   sweep : `sweep n=<reports> cancelled=<runs that returned Cancelled> ok=<runs that returned Ok>`
 //!
 //! Oracle (on the recorded values of the implementation alone): every value within [0,1]; never
-//! decreasing by more than 1e-6; the last value is exactly 1.0 iff the call returned Ok (API E; for
-//! API F the value is recorded in the result line, see notes/C17.md); cancelling at a report below
-//! 100 % or before the call gives Err(Cancelled); a pre-cancelled call reports nothing, writes nothing,
-//! and succeeds when retried after `reset`.
+//! decreasing by more than 1e-6; in a run in which cancellation is never requested the last value is
+//! exactly 1.0 iff the call returned Ok (both APIs; the free function on its sequential /
+//! single-fragment path is known finding F8); cancelling at a report below 100 % or before the call
+//! gives Err(Cancelled) (a request at a 1.0 report may give either outcome); a pre-cancelled call
+//! reports nothing, writes nothing, and succeeds when retried after `reset`.
 use crate::c14::*;
 use crate::common::*;
 use dds::*;
@@ -58,13 +63,17 @@ pub struct Case {
     pub mt: bool,
     pub cancel: Cancel,
     pub seed: u64,
+    /// number of fragments of the level-0 surface (`SplitView::new(..).len()`), part of the case line
+    /// so that the code path (sequential / single fragment / multi fragment) is visible in it
+    pub nf: u32,
 }
 
 pub fn parse(line: &str) -> Option<Option<Case>> {
     let t = toks(line);
-    if t.len() != 15 || t[0] != "run" {
+    if t.len() != 16 || t[0] != "run" {
         return None;
     }
+    let nf: u32 = t[15].strip_prefix("nf=")?.parse().ok()?;
     let api_encoder = match t[1] {
         "E" => true,
         "F" => false,
@@ -120,6 +129,7 @@ pub fn parse(line: &str) -> Option<Option<Case>> {
         mt,
         cancel,
         seed,
+        nf,
     }))
 }
 
@@ -286,7 +296,7 @@ fn bits(v: &[f32]) -> String {
 const SLACK: f32 = 1e-6;
 
 /// the property's clauses that concern one recorded run
-fn check_sequence(tag: &str, c: &Case, o: &Outcome, orc: &mut Vec<String>) {
+fn check_sequence(tag: &str, c: &Case, o: &Outcome, pre_cancelled: bool, cancel_at: Option<usize>, orc: &mut Vec<String>) {
     let r = &o.reports;
     for (i, &p) in r.iter().enumerate() {
         if !(p >= 0.0 && p <= 1.0) {
@@ -306,24 +316,235 @@ fn check_sequence(tag: &str, c: &Case, o: &Outcome, orc: &mut Vec<String>) {
             break;
         }
     }
+    // "ends with 1.0 exactly when the call succeeds" is about runs in which cancellation is never
+    // requested (a request at a 1.0 report may legitimately give either outcome)
+    let requested = pre_cancelled || cancel_at.map(|k| k < r.len()).unwrap_or(false);
     let ends_100 = r.last().map(|&p| p == 1.0).unwrap_or(false);
-    if c.api_encoder {
+    if !requested {
         if o.result.is_ok() && !ends_100 {
-            orc.push(format!("{tag}: call succeeded but the last report is {:?}, not 1.0", r.last()));
+            let last = r.last().map(|p| format!("{p:e}")).unwrap_or("none".into());
+            if c.api_encoder {
+                orc.push(format!("{tag}: call succeeded but the last report is {last}, not 1.0"));
+            } else {
+                orc.push(format!("free encode returned Ok without a final 1.0 report (last={last})"));
+            }
         }
         if o.result.is_err() && ends_100 {
             orc.push(format!("{tag}: call failed ({}) after reporting 1.0", res_name(&o.result)));
         }
-    } else if o.result.is_err() && ends_100 {
-        orc.push(format!("{tag}: call failed ({}) after reporting 1.0", res_name(&o.result)));
     }
     if o.timeouts > 0 {
         // not a property failure; visible in the evidence through the result line only if it changes a result
     }
 }
 
-pub fn gen(_seed: u64, _thorough: bool) -> Vec<String> {
-    vec![]
+fn n_fragments(name: &str, w: u32, h: u32, d: &str, q: &str) -> u32 {
+    let f = parse_format(name).unwrap();
+    let data = vec![0u8; w as usize * h as usize];
+    let img = ImageView::new(&data, Size::new(w, h), ColorFormat::GRAYSCALE_U8).unwrap();
+    let o = options(parse_dith(d).unwrap(), parse_quality(q).unwrap(), ErrorMetric::Uniform, true);
+    SplitView::new(img, f, &o).len()
+}
+
+/// (format, color, dithering, quality): one entry per encoder function / pick_encoder branch
+const SHAPES: &[(&str, &str, &str, &str)] = &[
+    // copy_directly
+    ("R8G8B8A8_UNORM", "rgba8", "none", "fast"),
+    ("R32G32B32A32_FLOAT", "rgba32", "all", "fast"),
+    ("R16_UNORM", "g16", "color", "fast"),
+    // uncompressed_untyped
+    ("R8G8B8A8_UNORM", "rgb8", "none", "fast"),
+    ("B8G8R8A8_UNORM", "rgba8", "all", "fast"),
+    ("R8G8B8A8_SNORM", "g8", "none", "fast"),
+    ("R32G32B32_FLOAT", "g32", "none", "fast"),
+    // uncompressed_universal
+    ("R8G8B8A8_UNORM", "rgba32", "none", "fast"),
+    ("B5G6R5_UNORM", "rgba8", "none", "fast"),
+    ("R16G16B16A16_FLOAT", "rgba8", "all", "fast"),
+    ("R9G9B9E5_SHAREDEXP", "g8", "color", "fast"),
+    ("AYUV", "rgb16", "none", "fast"),
+    // uncompressed_universal_dither
+    ("B5G6R5_UNORM", "rgba8", "color", "fast"),
+    ("R8G8B8A8_UNORM", "rgba32", "all", "fast"),
+    ("A8_UNORM", "rgba16", "alpha", "fast"),
+    ("R16G16B16A16_UNORM", "rgba32", "color", "fast"),
+    ("B4G4R4A4_UNORM", "g8", "alpha", "fast"),
+    ("R10G10B10A2_UNORM", "rgb8", "all", "fast"),
+    // sub-sampled
+    ("R1_UNORM", "g8", "none", "fast"),
+    ("R1_UNORM", "rgba8", "color", "fast"),
+    ("YUY2", "rgba8", "none", "fast"),
+    ("Y210", "rgb16", "none", "fast"),
+    ("R8G8_B8G8_UNORM", "rgb8", "all", "fast"),
+    // bi-planar
+    ("NV12", "rgba8", "none", "fast"),
+    ("P010", "rgb16", "none", "fast"),
+    // block compression
+    ("BC1_UNORM", "rgba8", "none", "fast"),
+    ("BC1_UNORM", "rgb8", "all", "normal"),
+    ("BC3_UNORM", "rgba8", "alpha", "fast"),
+    ("BC4_UNORM", "g8", "color", "fast"),
+    ("BC5_SNORM", "rgb16", "none", "normal"),
+    ("BC7_UNORM", "rgba8", "none", "fast"),
+    ("BC7_UNORM", "rgba32", "all", "fast"),
+    ("BC3_UNORM_RXGB", "rgba8", "color", "fast"),
+];
+
+fn size_mult(name: &str) -> (u32, u32) {
+    parse_format(name)
+        .and_then(|f| f.encoding_support())
+        .and_then(|s| s.size_multiple())
+        .map(|(a, b)| (a.get(), b.get()))
+        .unwrap_or((1, 1))
+}
+
+fn sizes_for(name: &str, q: &str, rng: &mut Rng, thorough: bool) -> Vec<(u32, u32)> {
+    let mut v: Vec<(u32, u32)> = vec![(0, 0), (1, 1), (4, 4), (5, 3), (16, 16), (33, 17), (64, 64)];
+    if is_bc(name) {
+        let t: u32 = if name.starts_with("BC7") {
+            256
+        } else if q == "fast" {
+            4096
+        } else if name.starts_with("BC4") || name.starts_with("BC5") {
+            2048
+        } else {
+            1024
+        };
+        // at the split threshold, two fragments, uneven last fragment, many fragments, wide
+        v.push((16, t / 16));
+        v.push((16, t / 16 + 1));
+        v.push((16, 2 * (t / 16)));
+        v.push((32, 3 * (t / 32) + 5));
+        v.push((24, 7 * ((t / 24) / 4 * 4) + 2));
+        v.push((20, 20 * ((t / 20) / 4 * 4)));
+        v.push((t + 9, 11));
+        v.push((128, 128));
+        v.push((rng.range(40, 90) as u32, rng.range(100, 300) as u32));
+        if thorough {
+            v.push((256, 256));
+            v.push((512, 260)); // > 8192 blocks: a second sequential report at Fast
+        }
+    } else {
+        v.push((3, 4100)); // many row chunks (dither / sub-sampled report frequency)
+        v.push((2, 8200));
+        v.push((700, 3));
+        v.push((rng.range(1, 200) as u32, rng.range(1, 200) as u32));
+    }
+    let (mw, mh) = size_mult(name);
+    for s in v.iter_mut() {
+        s.0 = s.0 / mw * mw;
+        s.1 = s.1 / mh * mh;
+    }
+    v.dedup();
+    v
+}
+
+pub fn gen(seed: u64, thorough: bool) -> Vec<String> {
+    let mut rng = Rng::new(seed);
+    let mut out = vec![];
+    let orders = ["nat", "rev", "rnd", "free"];
+    let mut k: usize = 0;
+    let mut push = |out: &mut Vec<String>,
+                    api: &str,
+                    sh: &(&str, &str, &str, &str),
+                    w: u32,
+                    h: u32,
+                    mips: bool,
+                    par: bool,
+                    rep: &str,
+                    cancel: String,
+                    k: &mut usize,
+                    rng: &mut Rng| {
+        *k += 1;
+        let th = 1 + (*k * 7) % 16;
+        let o = orders[(*k / 3) % 4];
+        let nf = n_fragments(sh.0, w, h, sh.2, sh.3);
+        out.push(format!(
+            "run {api} {} {w} {h} {} {} {} {} {} {th} {o} {rep} {cancel} {} nf={nf}",
+            sh.0,
+            sh.1,
+            sh.2,
+            sh.3,
+            mips as u8,
+            par as u8,
+            rng.below(1 << 30)
+        ));
+    };
+    // structured: every shape x sizes x API x mips x parallel x cancellation mode
+    for sh in SHAPES {
+        let (mw, mh) = size_mult(sh.0);
+        let can_mip = mw == 1 && mh == 1;
+        for (si, (w, h)) in sizes_for(sh.0, sh.3, &mut rng, thorough).into_iter().enumerate() {
+            let big = w as u64 * h as u64 > 20_000;
+            for api in ["E", "F"] {
+                if api == "E" && (w == 0 || h == 0) {
+                    continue; // a DDS header cannot declare an empty surface
+                }
+                for mips in [false, true] {
+                    if mips && (api == "F" || !can_mip || w == 0) {
+                        continue;
+                    }
+                    for par in [false, true] {
+                        if par && !is_bc(sh.0) && si % 3 != 0 {
+                            continue; // never split: one in three sizes is enough
+                        }
+                        let rep = if par && si % 4 == 1 { "st" } else { "mt" };
+                        push(&mut out, api, sh, w, h, mips, par, rep, "-".into(), &mut k, &mut rng);
+                        if !big || thorough {
+                            push(&mut out, api, sh, w, h, mips, par, rep, "pre".into(), &mut k, &mut rng);
+                        }
+                        if (!big && (si + k) % 2 == 0) || thorough {
+                            push(&mut out, api, sh, w, h, mips, par, "mt", "sweep".into(), &mut k, &mut rng);
+                        } else {
+                            let c = format!("k{}", rng.below(6));
+                            push(&mut out, api, sh, w, h, mips, par, "mt", c, &mut k, &mut rng);
+                        }
+                    }
+                }
+            }
+        }
+    }
+    // a few large surfaces so that every family reports more than once sequentially
+    let large: &[(&str, &str, &str, &str, u32, u32)] = &[
+        ("B5G6R5_UNORM", "g8", "none", "fast", 1100, 1000),     // universal: 2149 chunks
+        ("R8G8B8A8_UNORM", "rgb8", "none", "fast", 2100, 1000), // untyped: 2051 chunks
+        ("NV12", "g8", "none", "fast", 65536, 20),              // bi-planar: frequency 8, 10 groups
+        ("BC1_UNORM", "rgba8", "none", "fast", 512, 260),       // 8320 blocks
+        ("BC4_UNORM", "g8", "none", "normal", 256, 260),        // 4160 blocks, frequency 4096
+    ];
+    for l in large {
+        let sh = (l.0, l.1, l.2, l.3);
+        for (api, par, cancel) in [("E", false, "-"), ("F", false, "-"), ("E", true, "-"), ("E", false, "k1"), ("F", true, "k1")] {
+            push(&mut out, api, &sh, l.4, l.5, false, par, "mt", cancel.into(), &mut k, &mut rng);
+        }
+    }
+    // PRNG: parallel BC encodes with every pool size / order, random cancellation points
+    let n_rand = if thorough { 30_000 } else { 700 };
+    let bc_shapes: Vec<&(&str, &str, &str, &str)> = SHAPES.iter().filter(|s| is_bc(s.0)).collect();
+    for _ in 0..n_rand {
+        let sh = **rng.pick(&bc_shapes);
+        let t: u64 = if sh.0.starts_with("BC7") { 256 } else if sh.3 == "fast" { 4096 } else { 1024 };
+        let w = rng.range(4, 70);
+        let fh = ((t / w) / 4 * 4).max(4);
+        let h = match rng.below(3) {
+            0 => fh * rng.range(2, 12),
+            1 => fh * rng.range(1, 12) + rng.range(1, fh - 1),
+            _ => rng.range(1, 4 * fh),
+        };
+        if w * h > 120_000 {
+            continue;
+        }
+        let api = if rng.chance(1, 2) { "E" } else { "F" };
+        let mips = api == "E" && rng.chance(1, 3);
+        let rep = if rng.chance(1, 8) { "st" } else { "mt" };
+        let cancel = match rng.below(4) {
+            0 => "-".to_string(),
+            1 => "pre".to_string(),
+            _ => format!("k{}", rng.below(14)),
+        };
+        push(&mut out, api, &sh, w as u32, h as u32, mips, true, rep, cancel, &mut k, &mut rng);
+    }
+    out
 }
 
 pub fn run(line: &str) -> Option<(String, Vec<String>)> {
@@ -335,6 +556,9 @@ pub fn run(line: &str) -> Option<(String, Vec<String>)> {
     ImageView::new(&data, Size::new(c.w, c.h), c.color)?;
     let mut orc = vec![];
     let frs = level_fragments(&c);
+    if frs[0].len() as u32 != c.nf {
+        return Some((format!("bad-nf impl={}", frs[0].len()), vec![]));
+    }
     // is the report sequence independent of the completion order?
     let order_free = !c.opts.parallel
         || !c.mt
@@ -342,15 +566,17 @@ pub fn run(line: &str) -> Option<(String, Vec<String>)> {
     match c.cancel {
         Cancel::Never => {
             let o = execute(&c, &data, false, None, false).remove(0);
-            check_sequence("run", &c, &o, &mut orc);
+            check_sequence("run", &c, &o, false, None, &mut orc);
             let n = o.reports.len();
             let res = if order_free {
                 format!("{} n={n} seq={}", res_name(&o.result), bits(&o.reports))
             } else {
-                let mut d: Vec<f32> = o.reports.windows(2).map(|w| w[1] - w[0]).collect();
+                let mut with0 = vec![0.0f32];
+                with0.extend_from_slice(&o.reports);
+                let mut d: Vec<f32> = with0.windows(2).map(|w| w[1] - w[0]).collect();
                 d.sort_by(|a, b| a.partial_cmp(b).unwrap_or(std::cmp::Ordering::Equal));
-                let first = o.reports.first().copied().unwrap_or(-1.0);
-                format!("{} n={n} first={:08x} dif={}", res_name(&o.result), first.to_bits(), bits(&d))
+                let last: Vec<f32> = o.reports.last().copied().into_iter().collect();
+                format!("{} n={n} last={} dif={}", res_name(&o.result), bits(&last), bits(&d))
             };
             Some((res, orc))
         }
@@ -362,8 +588,8 @@ pub fn run(line: &str) -> Option<(String, Vec<String>)> {
             }
             let o2 = os.remove(1);
             let o1 = os.remove(0);
-            check_sequence("pre-cancelled", &c, &o1, &mut orc);
-            check_sequence("retry", &c, &o2, &mut orc);
+            check_sequence("pre-cancelled", &c, &o1, true, None, &mut orc);
+            check_sequence("retry", &c, &o2, false, None, &mut orc);
             if !matches!(o1.result, Err(EncodingError::Cancelled)) {
                 orc.push(format!("token cancelled before the call, result {}", res_name(&o1.result)));
             }
@@ -390,7 +616,7 @@ pub fn run(line: &str) -> Option<(String, Vec<String>)> {
         }
         Cancel::At(k) => {
             let o = execute(&c, &data, false, Some(k), false).remove(0);
-            check_sequence("cancel", &c, &o, &mut orc);
+            check_sequence("cancel", &c, &o, false, Some(k), &mut orc);
             check_cancel_at(&c, k, &o, &mut orc);
             let res = if !c.opts.parallel || !c.mt || frs.iter().all(|f| f.len() <= 1) {
                 format!("{} n={}", res_name(&o.result), o.reports.len())
@@ -401,13 +627,13 @@ pub fn run(line: &str) -> Option<(String, Vec<String>)> {
         }
         Cancel::Sweep => {
             let o = execute(&c, &data, false, None, false).remove(0);
-            check_sequence("run", &c, &o, &mut orc);
+            check_sequence("run", &c, &o, false, None, &mut orc);
             let n = o.reports.len();
             let ks: Vec<usize> = if n <= 96 { (0..n).collect() } else { (0..96).map(|i| i * (n - 1) / 95).collect() };
             let (mut nc, mut nok) = (0, 0);
             for k in ks {
                 let ok = execute(&c, &data, false, Some(k), false).remove(0);
-                check_sequence(&format!("cancel at {k}"), &c, &ok, &mut orc);
+                check_sequence(&format!("cancel at {k}"), &c, &ok, false, Some(k), &mut orc);
                 check_cancel_at(&c, k, &ok, &mut orc);
                 match ok.result {
                     Err(EncodingError::Cancelled) => nc += 1,
